@@ -104,6 +104,10 @@ def gen_exprs(rnd, n):
             ("true.to_string('', 'no')", ''), ("false.to_string('yes', '')", ''), ("false.to_string('yes', 'no')", 'no'), ("true.to_string()", 'true'), ("false.to_string()", 'false'),
             ("'a b'.split()", ['a', 'b']), ("'a,b'.split(',')", ['a', 'b']), ("''.join(['a', 'b'])", 'ab'), ("'abc'.replace('b', '')", 'ac'), ("{'k': 0}.get('k', 5)", 0), ("{'k': ''}.get('k', 'd')", ''),
             ("'0'.to_int()", 0), ("0.to_string()", '0'), ("0.is_even()", True), ("'abc'.startswith('')", True), ("'abc'.contains('')", True), ("[0, 1].contains(0)", True), ("[''].contains('')", True),
+            # escape sequences of '...' are decoded ONCE, left to right: an escaped backslash is a backslash, whatever follows it
+            (r"'a\\x41b' == 'a' + '\\' + 'x41b'", True), (r"'\\x41' == 'A'", False), (r"'\x41' == 'A'", True), (r"'\\101' == 'A'", False), (r"'\101' == 'A'", True),
+            (r"'C:\\tools\\x64\\7zip' == 'C:' + '\\' + 'tools' + '\\' + 'x64' + '\\' + '7zip'", True), (r"'\\\\x41' == '\\' + '\\' + 'x41'", True), (r"'\\\x41' == '\\' + 'A'", True),
+            (r"'\\n'.contains('n')", True), (r"'\\u0041'.contains('u0041')", True), (r"'\\N{DIGIT ONE}'.contains('DIGIT')", True), (r"'\\t' == '\t'", False),
             *array_method_cases(), *BOOL_AS_INT_VALUES,
             ("'a\\nb'.split('\\n').length()", 2), ("'''a\\nb'''.split('\\n').length()", 1), ("'x' == 'x'", True), ('[1, 2] == [1, 2]', True)]
     return out
